@@ -97,14 +97,14 @@ func (c *Ctx) Tables() *Tables {
 	}
 	// predicates evaluated per constant
 	for name, v := range t.Consts {
-		if r, ok := evalEnumPredicate(pk, c.P.Decl(methodOf(pk, tn.Type(), "IsAllowedForRootContext")), v); ok {
+		if r, ok := c.enumPredicate(pk, methodOf(pk, tn.Type(), "IsAllowedForRootContext"), v); ok {
 			if r {
 				t.Root[name] = true
 			}
 		} else {
 			t.problem("cannot evaluate IsAllowedForRootContext for %s", name)
 		}
-		if r, ok := evalEnumPredicate(pk, c.P.Decl(methodOf(pk, tn.Type(), "IsHTTPRequestMethod")), v); ok {
+		if r, ok := c.enumPredicate(pk, methodOf(pk, tn.Type(), "IsHTTPRequestMethod"), v); ok {
 			if r {
 				t.HTTPMethod[name] = true
 			}
@@ -410,6 +410,34 @@ func isSetBuilder(pk *packages.Package, d *ast.FuncDecl) bool {
 
 // evalEnumPredicate evaluates `func (de T) P() bool { switch de { case A, B: return true; default: return false } }`
 // (also if/return forms over ==) for a constant receiver value.
+// enumPredicate evaluates a predicate method of the enumeration on one constant: the direct reading of its switch or
+// comparison, and -- when the body has another form (a test of another predicate first, an if chain, a helper) -- the
+// abstract run of the small constant evaluator with the receiver bound.
+func (c *Ctx) enumPredicate(pk *packages.Package, m *types.Func, v int64) (res, ok bool) {
+	if m == nil {
+		return false, false
+	}
+	if r, ok := evalEnumPredicate(pk, c.P.Decl(m), v); ok {
+		return r, true
+	}
+	f := c.fnOf(m)
+	if f == nil || f.Decl.Recv == nil || len(f.Decl.Recv.List) != 1 || len(f.Decl.Recv.List[0].Names) != 1 {
+		return false, false
+	}
+	env := &constEnv{c: c, vars: map[types.Object]constant.Value{pk.TypesInfo.Defs[f.Decl.Recv.List[0].Names[0]]: constant.MakeInt64(v)}}
+	outs := map[string]bool{}
+	env.evalBody(f, f.Decl.Body.List, outs, 0)
+	if len(outs) == 1 {
+		if outs["true"] {
+			return true, true
+		}
+		if outs["false"] {
+			return false, true
+		}
+	}
+	return false, false
+}
+
 func evalEnumPredicate(pk *packages.Package, d *ast.FuncDecl, v int64) (res, ok bool) {
 	if d == nil || d.Body == nil || d.Recv == nil || len(d.Recv.List) != 1 || len(d.Recv.List[0].Names) != 1 {
 		return false, false
